@@ -85,3 +85,24 @@ theorem announced_len_exact (en : En) (xs : List LV) (h : Honest (.lazy en xs)) 
   exact this.1 n rfl
 
 end MJ.ValueSer
+
+namespace MJ.ValueSer
+
+mutual
+/-- a conversion leaves the flag as it found it — also when it (or something nested) panics — and
+everything nested inside it runs with the flag set -/
+theorem runConv_restores : ∀ (c : Conv) (flag : Bool), (runConv c flag).1 = flag
+  | .conv inner panics, flag => by
+    have h := runConvs_restores inner true
+    cases flag <;> simp [runConv, h]
+theorem runConvs_restores : ∀ (cs : List Conv) (flag : Bool), (runConvs cs flag).1 = flag
+  | [], flag => rfl
+  | c :: cs, flag => by
+    have h1 := runConv_restores c flag
+    simp only [runConvs]
+    split
+    · exact h1
+    · rw [h1]; exact runConvs_restores cs flag
+end
+
+end MJ.ValueSer
